@@ -43,6 +43,12 @@ package ice
 //@   site call Write#0 ghost writes := writes + 1
 //@   site call Write#0 assert the-whole-frame-goes-out-in-one-write: len(arg0) == 2 + len(buf)
 //@   ensures a-frame-is-one-write-so-that-a-refusing-or-interleaving-writer-never-splits-it: writes <= 1
+//@   ghostvar truncated bool = false
+//@   ghostvar closedStream bool = false
+//@   site call Write#0 ghost truncated := result1 != nil && result0 > 0
+//@   site call Close#0 assert C14 closes-the-stream-it-wrote-to-and-only-after-a-truncated-frame: recv == conn && truncated
+//@   site call Close#0 ghost closedStream := true
+//@   ensures C14 a-truncated-frame-on-the-wire-closes-the-stream: truncated ==> closedStream && err != nil
 //@   ensures too-long: len(buf) > 65535 ==> err != nil && conn.wpos == old(conn.wpos)
 //@   ensures count: err == nil ==> result == len(buf)
 //@   ensures advance: err == nil ==> conn.wpos == old(conn.wpos) + 2 + len(buf)
@@ -55,15 +61,16 @@ package ice
 // the stream is never resynchronised after an error — and every packet handed
 // to the receive queue has exactly the framed length.
 //@ func (*tcpPacketConn).startReading
-//@   props C14 C07
+//@   props C14 C07 C15
 //@   requires conn != nil
 //@   ghostvar failed bool = false
 //@   loop 1 invariant no-read-after-error: !failed
 //@   site call readStreamingPacket#1 assert reads-into-full-buffer: arg1 == buf && len(buf) == receiveMTU
 //@   site call readStreamingPacket#1 ghost failed := result1 != nil
 //@   site call removeConn#1 assert detached-on-error: failed && arg1 == conn
-//@   site call handleRecv#2 assert delivers-framed-length: !failed && len(arg1.Data) == n && arg1.Err == nil
-//@   site call handleRecv#2 assert C14 C07 a-queued-packet-owns-its-bytes-and-they-are-the-frame: arg1.Data.base != buf.base && forall j int :: 0 <= j && j < n ==> elems(arg1.Data)[arg1.Data.off + j] == elems(buf)[buf.off + j]
+//@   site call handleRecv#0 assert C15 C14 only-packets-reach-the-receive-queue-shared-by-all-connections-never-the-failure-of-one: !failed && arg1.Err == nil
+//@   site call handleRecv#1 assert delivers-framed-length: !failed && len(arg1.Data) == n && arg1.Err == nil
+//@   site call handleRecv#1 assert C14 C07 a-queued-packet-owns-its-bytes-and-they-are-the-frame: arg1.Data.base != buf.base && forall j int :: 0 <= j && j < n ==> elems(arg1.Data)[arg1.Data.off + j] == elems(buf)[buf.off + j]
 
 // A packet is either delivered whole or refused: the reported length never
 // exceeds the bytes actually copied into the caller's buffer.
@@ -79,7 +86,11 @@ package ice
 //@   ghostvar flag int = 0
 //@   site call LoadInt32#1 ghost flag := result
 //@   site call Is#1 ghost eof := result
-//@   ensures C14 C15 the-writer-stops-only-at-end-of-stream-or-close: eof || flag != 0
+//@   ghostvar truncated bool = false
+//@   site call Write#1 ghost truncated := result1 != nil && result0 > 0
+//@   loop 1 invariant C14 nothing-is-written-behind-a-truncated-frame: !truncated
+//@   site call Close#1 assert C14 closes-its-own-stream-and-only-after-a-truncated-frame: recv == bc && truncated
+//@   ensures C14 C15 the-writer-stops-only-at-end-of-stream-close-or-a-truncated-frame: eof || flag != 0 || truncated
 //@   ghostvar readOK bool = false
 //@   ghostvar got int = 0
 //@   site call Read#1 assert C14 the-scratch-buffer-holds-a-framed-packet-of-the-receive-mtu: len(arg1) >= receiveMTU + streamingPacketHeaderLen
